@@ -27,7 +27,17 @@ def gen_siblings(rng):
 def gen_scenarios(rng, n):
     out = []
     for i in range(n):
-        if i % 6 == 1:
+        if i % 6 == 0 or i % 6 == 3:
+            # a search resumed in a fresh interpreter must go on exactly like one reloaded in the same process: small discrete
+            # spaces, so that samples drawn after the reload collide with configurations tried before it
+            cfg = lc.gen_config(rng, kinds=["random", "random", "hyperband", "bayes", "grid"])
+            cfg["nsteps"] = rng.randint(16, 40); cfg["max_trials"] = rng.choice([None, 6, 8, 12]) if cfg["kind"] != "hyperband" else None
+            if cfg["kind"] == "bayes":
+                cfg["max_trials"] = rng.choice([4, 5, 6]); cfg["nsteps"] = 24
+            if cfg["kind"] == "hyperband":
+                cfg["max_epochs"] = rng.choice([3, 4, 9]); cfg["nsteps"] = rng.randint(25, 60)
+            out.append(dict(type="resume", cfg=cfg, grow=rng.random() < 0.3, split=rng.randint(3, max(4, cfg["nsteps"] - 4))))
+        elif i % 6 == 1:
             out.append(dict(type="hb_grow", direction=rng.choice(["min", "max"]), max_epochs=rng.choice([4, 8, 9]), factor=rng.choice([2, 3]), seed=rng.randint(1, 10 ** 6),
                             hseed=rng.randint(0, 2 ** 31), W=rng.choice([3, 4, 6]), waves=rng.randint(3, 6)))
         elif i % 6 == 4:
@@ -49,9 +59,9 @@ def gen_scenarios(rng, n):
     return out
 
 
-def run_child(salt, hashseed, path):
+def run_child(salt, hashseed, path, phase="full"):
     env = dict(os.environ, PYTHONHASHSEED=str(hashseed), PYTHONPATH="/repo:/verif/harness", TF_CPP_MIN_LOG_LEVEL="3")
-    p = subprocess.run(["/venv/bin/python", "-W", "ignore", "-m", "ktverif.c12_child", str(salt), path], capture_output=True, text=True, env=env, timeout=3000)
+    p = subprocess.run(["/venv/bin/python", "-W", "ignore", "-m", "ktverif.c12_child", str(salt), path, phase], capture_output=True, text=True, env=env, timeout=3000)
     for line in p.stdout.split("\n"):
         if line.startswith("C12RESULT "):
             return json.loads(line[len("C12RESULT "):])
@@ -73,11 +83,21 @@ def run(ctx):
     corpus = [json.load(open(f))["scenario"] for f in sorted(glob.glob("/verif/corpus/C12/*.json"))]
     scenarios = corpus + gen_scenarios(ctx.rng, n - len(corpus))
     os.makedirs(ctx.workdir, exist_ok=True)
+    import shutil
+    for k, sc in enumerate(scenarios):
+        if sc["type"] == "resume":
+            sc["dir"] = os.path.join(ctx.workdir, "resume_%d" % k)
     path = os.path.join(ctx.workdir, "scenarios.json")
     json.dump(scenarios, open(path, "w"))
-    with concurrent.futures.ThreadPoolExecutor(max_workers=3) as ex:
+    with concurrent.futures.ThreadPoolExecutor(max_workers=4) as ex:
         futs = [ex.submit(run_child, s, h, path) for s, h in ((1, 1), (2, 7919), (3, 1))]
+        f4 = ex.submit(run_child, 4, 4242, path, "first")
         r1, r2, r3 = [f.result() for f in futs]
+        rf = f4.result()
+    rs = run_child(5, 90001, path, "second")
+    for sc in scenarios:
+        if sc["type"] == "resume":
+            shutil.rmtree(sc["dir"], ignore_errors=True)
     failures = []; stats = dict(history=0, discovery=0, by_kind={}, issued=0, grown_spaces=0, differing=0)
     distinct = 0
     for k, sc in enumerate(scenarios):
@@ -90,11 +110,21 @@ def run(ctx):
         if sum(1 for e in r1[k] if e[0] == "create") >= 3:
             distinct += 1
         d = first_diff(r1[k], r2[k]) or first_diff(r1[k], r3[k])
+        if sc["type"] == "resume":
+            stats["resume"] = stats.get("resume", 0)
+            dr = first_diff(r1[k], rf[k] + rs[k])
+            if dr and not d:
+                stats["differing"] += 1
+                failures.append(Failure("violation", "C12/resume-fresh-process-" + sc["cfg"]["kind"],
+                                        "%s search reloaded after %d steps: reloading in the same process and resuming in a fresh interpreter (other PYTHONHASHSEED) differ at event %d: %r vs %r" % (
+                                            sc["cfg"]["kind"], sc["split"], dr[0], dr[1], dr[2]), {"scenario": sc, "event": dr[0], "same_process": dr[1], "fresh_process": dr[2]}))
         if d:
             stats["differing"] += 1
-            if sc["type"] == "history":
+            if sc["type"] in ("history", "resume"):
                 what = "history on the %s oracle%s" % (sc["cfg"]["kind"], " with hyperparameters discovered inside trials" if sc.get("grow") else "")
                 sig = "C12/history-" + sc["cfg"]["kind"] + ("-grow" if sc.get("grow") else "")
+                if sc["type"] == "resume":
+                    what += ", reloaded into a fresh oracle object after %d steps" % sc["split"]; sig = "C12/after-reload-" + sc["cfg"]["kind"]
             elif sc["type"] == "hb_grow":
                 what = "Hyperband search in which some configurations declare a further hyperparameter"; sig = "C12/hyperband-promotion-after-growth"
             else:
@@ -104,7 +134,8 @@ def run(ctx):
     return dict(evaluations=n, distinct_nontrivial=distinct, traces_validated=n - stats["differing"],
                 rule="scenarios = (2/3) seeded worker-pool histories on the real random, grid, Hyperband and Bayesian oracles, 60% of them declaring further (conditional) "
                      "hyperparameters inside trials, (1/3) tuner constructions over generated declaration trees followed by four trials; each scenario is replayed in "
-                     "three fresh interpreters (PYTHONHASHSEED 1 / 7919 / 1, different global random and numpy seeds); non-trivial = scenario issuing >= 3 trials",
+                     "three fresh interpreters (PYTHONHASHSEED 1 / 7919 / 1, different global random and numpy seeds); one third of the histories are additionally cut at a random step: "
+                     "reloaded into a fresh oracle of the same process vs. first part in one interpreter and the rest in another (PYTHONHASHSEED 4242 / 90001) on the saved project; non-trivial = scenario issuing >= 3 trials",
                 samples=[dict(scenario=scenarios[0], issued=r1[0][:6]), dict(scenario=scenarios[2], issued=r1[2][:4])], failures=failures, stats=stats)
 
 
